@@ -370,13 +370,53 @@ theorem RelL.length {α β : Type} {R : α → β → Prop} {l : List α} {m : L
 def AccRel (RE : Entry → Entry → Prop) (RS : TState → TState → Prop) (a₁ a₂ : Entry × TState) : Prop :=
   RE a₁.1 a₂.1 ∧ RS a₁.2 a₂.2
 
+/-- The statement is a (sub)module statement. -/
+def isModKw (n : Stmt) : Bool := n.kw == "module" || n.kw == "submodule"
+
+theorem not_modKw_of_all {n c : Stmt} {kw : String} (hc : c ∈ n.all kw) (h1 : kw ≠ "module") (h2 : kw ≠ "submodule") :
+    isModKw c = false := by
+  have := mem_all_kw n kw c hc
+  unfold isModKw
+  rw [this]
+  simp [h1, h2]
+
+theorem not_modKw_of_one {n c : Stmt} {kw : String} (hc : n.one? kw = some c) (h1 : kw ≠ "module") (h2 : kw ≠ "submodule") :
+    isModKw c = false := by
+  have := one?_kw n kw c hc
+  unfold isModKw
+  rw [this]
+  simp [h1, h2]
+
+/-- Keywords whose substatements the field steps convert and add, merge or check. -/
+def convKws : List String :=
+  ["anydata", "anyxml", "case", "choice", "container", "leaf", "leaf-list", "list", "notification", "rpc", "action",
+   "grouping", "uses", "deviation", "deviate"]
+
+/-- `c` is converted by the field step `f` of statement `n`. -/
+def Called (n : Stmt) (f : String) (c : Stmt) : Prop :=
+  (f ∈ convKws ∧ c ∈ n.all f) ∨ ((f = "input" ∨ f = "output") ∧ n.one? f = some c) ∨
+    (f = "augment" ∧ c ∈ n.all "augment")
+
+theorem Called.kw {n c : Stmt} {f : String} (h : Called n f c) : c.kw = f := by
+  rcases h with ⟨_, h⟩ | ⟨_, h⟩ | ⟨rfl, h⟩
+  · exact mem_all_kw n f c h
+  · exact one?_kw n f c h
+  · exact mem_all_kw n _ c h
+
+theorem Called.mem {n c : Stmt} {f : String} (h : Called n f c) : c ∈ n.subs := by
+  rcases h with ⟨_, h⟩ | ⟨_, h⟩ | ⟨_, h⟩
+  · exact (List.mem_filter.1 h).1
+  · exact List.mem_of_find?_eq_some h
+  · exact (List.mem_filter.1 h).1
+
 section Step
-variable {RE : Entry → Entry → Prop} (hC : Closed2 RE) {RS : TState → TState → Prop}
+variable {RE : Entry → Entry → Prop} (hC : Closed2 RE) {RS : TState → TState → Prop} {U : Stmt → Prop}
   (env₁ env₂ : Env) (r1 r2 : Rec) (root₁ root₂ : Mod) (n : Stmt) (sub₁ sub₂ : List Stmt) (vis₁ vis₂ : List NodeId)
-  (hch : ∀ c ∈ n.subs, ∀ s₁ s₂, RS s₁ s₂ → AccRel RE RS (r1 root₁ sub₁ c vis₁ s₁) (r2 root₂ sub₂ c vis₂ s₂))
+  (hch : ∀ c, U c → ∀ s₁ s₂, RS s₁ s₂ → AccRel RE RS (r1 root₁ sub₁ c vis₁ s₁) (r2 root₂ sub₂ c vis₂ s₂))
 include hC hch
 
-theorem addFold_rel (kw : String) (acc₁ acc₂ : Entry × TState) (h : AccRel RE RS acc₁ acc₂) :
+theorem addFold_rel (kw : String) (hU : ∀ c ∈ n.all kw, U c) (acc₁ acc₂ : Entry × TState)
+    (h : AccRel RE RS acc₁ acc₂) :
     AccRel RE RS
       ((n.all kw).foldl (fun (acc : Entry × TState) c =>
         (acc.1.add c.arg (r1 root₁ sub₁ c vis₁ acc.2).1, (r1 root₁ sub₁ c vis₁ acc.2).2)) acc₁)
@@ -384,10 +424,11 @@ theorem addFold_rel (kw : String) (acc₁ acc₂ : Entry × TState) (h : AccRel 
         (acc.1.add c.arg (r2 root₂ sub₂ c vis₂ acc.2).1, (r2 root₂ sub₂ c vis₂ acc.2).2)) acc₂) := by
   refine foldl_rel (AccRel RE RS) _ _ _ _ _ h ?_
   rintro ⟨e₁, s₁⟩ ⟨e₂, s₂⟩ c hc ⟨he, hs⟩
-  obtain ⟨q1, q2⟩ := hch c (mem_all_subs hc) s₁ s₂ hs
+  obtain ⟨q1, q2⟩ := hch c (hU c hc) s₁ s₂ hs
   exact ⟨hC.add _ _ _ _ _ he q1, q2⟩
 
-theorem rpcFold_rel (kw : String) (acc₁ acc₂ : Entry × TState) (h : AccRel RE RS acc₁ acc₂) :
+theorem rpcFold_rel (kw : String) (hU : ∀ c ∈ n.all kw, U c) (acc₁ acc₂ : Entry × TState)
+    (h : AccRel RE RS acc₁ acc₂) :
     AccRel RE RS
       ((n.all kw).foldl (fun (acc : Entry × TState) c =>
         (acc.1.add c.arg ((r1 root₁ sub₁ c vis₁ acc.2).1.withD fun d => { d with isRpc := true }),
@@ -397,10 +438,11 @@ theorem rpcFold_rel (kw : String) (acc₁ acc₂ : Entry × TState) (h : AccRel 
           (r2 root₂ sub₂ c vis₂ acc.2).2)) acc₂) := by
   refine foldl_rel (AccRel RE RS) _ _ _ _ _ h ?_
   rintro ⟨e₁, s₁⟩ ⟨e₂, s₂⟩ c hc ⟨he, hs⟩
-  obtain ⟨q1, q2⟩ := hch c (mem_all_subs hc) s₁ s₂ hs
+  obtain ⟨q1, q2⟩ := hch c (hU c hc) s₁ s₂ hs
   exact ⟨hC.add _ _ _ _ _ he (hC.withD _ _ _ ⟨fun _ => rfl, fun _ _ => rfl⟩ q1), q2⟩
 
-theorem importFold_rel (kw : String) (acc₁ acc₂ : Entry × TState) (h : AccRel RE RS acc₁ acc₂) :
+theorem importFold_rel (kw : String) (hU : ∀ c ∈ n.all kw, U c) (acc₁ acc₂ : Entry × TState)
+    (h : AccRel RE RS acc₁ acc₂) :
     AccRel RE RS
       ((n.all kw).foldl (fun (acc : Entry × TState) g =>
         (acc.1.importErrors (r1 root₁ sub₁ g vis₁ acc.2).1, (r1 root₁ sub₁ g vis₁ acc.2).2)) acc₁)
@@ -408,10 +450,11 @@ theorem importFold_rel (kw : String) (acc₁ acc₂ : Entry × TState) (h : AccR
         (acc.1.importErrors (r2 root₂ sub₂ g vis₂ acc.2).1, (r2 root₂ sub₂ g vis₂ acc.2).2)) acc₂) := by
   refine foldl_rel (AccRel RE RS) _ _ _ _ _ h ?_
   rintro ⟨e₁, s₁⟩ ⟨e₂, s₂⟩ c hc ⟨he, hs⟩
-  obtain ⟨q1, q2⟩ := hch c (mem_all_subs hc) s₁ s₂ hs
+  obtain ⟨q1, q2⟩ := hch c (hU c hc) s₁ s₂ hs
   exact ⟨hC.importErrors _ _ _ _ he q1, q2⟩
 
-theorem usesFold_rel (kw : String) (acc₁ acc₂ : Entry × TState) (h : AccRel RE RS acc₁ acc₂) :
+theorem usesFold_rel (kw : String) (hU : ∀ c ∈ n.all kw, U c) (acc₁ acc₂ : Entry × TState)
+    (h : AccRel RE RS acc₁ acc₂) :
     AccRel RE RS
       ((n.all kw).foldl (fun (acc : Entry × TState) u =>
         (acc.1.merge none (r1 root₁ sub₁ u vis₁ acc.2).1, (r1 root₁ sub₁ u vis₁ acc.2).2)) acc₁)
@@ -419,10 +462,11 @@ theorem usesFold_rel (kw : String) (acc₁ acc₂ : Entry × TState) (h : AccRel
         (acc.1.merge none (r2 root₂ sub₂ u vis₂ acc.2).1, (r2 root₂ sub₂ u vis₂ acc.2).2)) acc₂) := by
   refine foldl_rel (AccRel RE RS) _ _ _ _ _ h ?_
   rintro ⟨e₁, s₁⟩ ⟨e₂, s₂⟩ c hc ⟨he, hs⟩
-  obtain ⟨q1, q2⟩ := hch c (mem_all_subs hc) s₁ s₂ hs
+  obtain ⟨q1, q2⟩ := hch c (hU c hc) s₁ s₂ hs
   exact ⟨hC.merge _ _ _ _ he q1, q2⟩
 
-theorem deviateFold_rel (kw : String) (acc₁ acc₂ : Entry × TState) (h : AccRel RE RS acc₁ acc₂) :
+theorem deviateFold_rel (kw : String) (hU : ∀ c ∈ n.all kw, U c) (acc₁ acc₂ : Entry × TState)
+    (h : AccRel RE RS acc₁ acc₂) :
     AccRel RE RS
       ((n.all kw).foldl (fun (acc : Entry × TState) dv =>
         (if deviateKinds.contains dv.arg = true then acc.1.importErrors (r1 root₁ sub₁ dv vis₁ acc.2).1
@@ -434,7 +478,7 @@ theorem deviateFold_rel (kw : String) (acc₁ acc₂ : Entry × TState) (h : Acc
          (r2 root₂ sub₂ dv vis₂ acc.2).2)) acc₂) := by
   refine foldl_rel (AccRel RE RS) _ _ _ _ _ h ?_
   rintro ⟨e₁, s₁⟩ ⟨e₂, s₂⟩ c hc ⟨he, hs⟩
-  obtain ⟨q1, q2⟩ := hch c (mem_all_subs hc) s₁ s₂ hs
+  obtain ⟨q1, q2⟩ := hch c (hU c hc) s₁ s₂ hs
   refine ⟨?_, q2⟩
   dsimp only
   split
@@ -442,7 +486,7 @@ theorem deviateFold_rel (kw : String) (acc₁ acc₂ : Entry × TState) (h : Acc
   · exact hC.addErr _ _ _ (hC.importErrors _ _ _ _ he q1)
 
 omit hC in
-theorem augFold_rel (l : List Stmt) (hl : ∀ a ∈ l, a ∈ n.subs) (s₁ s₂ : TState) (h : RS s₁ s₂) :
+theorem augFold_rel (l : List Stmt) (hl : ∀ a ∈ l, U a) (s₁ s₂ : TState) (h : RS s₁ s₂) :
     RelL RE
       (l.foldl (fun (acc : List Entry × TState) a =>
         (acc.1 ++ [(r1 root₁ sub₁ a vis₁ acc.2).1], (r1 root₁ sub₁ a vis₁ acc.2).2)) ([], s₁)).1
@@ -470,7 +514,8 @@ theorem step_rel
     (isMod : Bool)
     (haug : isMod = true → ∀ s₁ s₂ as₁ as₂, RS s₁ s₂ → RelL RE as₁ as₂ →
       RS { s₁ with augs := s₁.augs ++ [(root₁.seq, as₁)] } { s₂ with augs := s₂.augs ++ [(root₂.seq, as₂)] })
-    (acc₁ acc₂ : Entry × TState) (f : String) (hinc : f = "include" → n.all "include" = [])
+    (acc₁ acc₂ : Entry × TState) (f : String) (hU : ∀ c, Called n f c → U c)
+    (hinc : f = "include" → n.all "include" = [])
     (h : AccRel RE RS acc₁ acc₂)
     (hk : acc₁.1.d.kind = acc₂.1.d.kind)
     (hin : f = "input" → acc₁.1.inp = [] ∧ acc₂.1.inp = [])
@@ -480,30 +525,32 @@ theorem step_rel
   obtain ⟨e₂, s₂⟩ := acc₂
   obtain ⟨he, hs⟩ := h
   dsimp only at he hs hk hin hout
-  revert hinc
+  have hUall : ∀ g, g ∈ convKws → (∀ c, Called n g c → U c) → ∀ c ∈ n.all g, U c :=
+    fun g hg h c hc => h c (Or.inl ⟨hg, hc⟩)
+  revert hinc hU
   have hgood : ∀ (g : EData → EData), GoodF g → RE (e₁.withD g) (e₂.withD g) := fun g hg => hC.withD _ _ g hg he
   unfold stepFn
   dsimp only
   split
   all_goals try dsimp only
-  all_goals intro hinc
+  all_goals intro hU hinc
   all_goals first
     | exact ⟨he, hs⟩
     | exact ⟨hC.addErrs _ _ _ (hgood _ ⟨fun _ => rfl, fun _ _ => rfl⟩), hs⟩
     | (refine ⟨?_, hs⟩; split
        · exact hgood _ ⟨fun _ => rfl, fun _ _ => rfl⟩
        · exact he)
-    | exact addFold_rel hC r1 r2 root₁ root₂ n sub₁ sub₂ vis₁ vis₂ hch _ (e₁, s₁) (e₂, s₂) ⟨he, hs⟩
-    | exact rpcFold_rel hC r1 r2 root₁ root₂ n sub₁ sub₂ vis₁ vis₂ hch _ (e₁, s₁) (e₂, s₂) ⟨he, hs⟩
-    | exact importFold_rel hC r1 r2 root₁ root₂ n sub₁ sub₂ vis₁ vis₂ hch _ (e₁, s₁) (e₂, s₂) ⟨he, hs⟩
-    | exact usesFold_rel hC r1 r2 root₁ root₂ n sub₁ sub₂ vis₁ vis₂ hch _ (e₁, s₁) (e₂, s₂) ⟨he, hs⟩
-    | exact deviateFold_rel hC r1 r2 root₁ root₂ n sub₁ sub₂ vis₁ vis₂ hch _ (e₁, s₁) (e₂, s₂) ⟨he, hs⟩
+    | exact addFold_rel hC r1 r2 root₁ root₂ n sub₁ sub₂ vis₁ vis₂ hch _ (hUall _ (by decide) hU) (e₁, s₁) (e₂, s₂) ⟨he, hs⟩
+    | exact rpcFold_rel hC r1 r2 root₁ root₂ n sub₁ sub₂ vis₁ vis₂ hch _ (hUall _ (by decide) hU) (e₁, s₁) (e₂, s₂) ⟨he, hs⟩
+    | exact importFold_rel hC r1 r2 root₁ root₂ n sub₁ sub₂ vis₁ vis₂ hch _ (hUall _ (by decide) hU) (e₁, s₁) (e₂, s₂) ⟨he, hs⟩
+    | exact usesFold_rel hC r1 r2 root₁ root₂ n sub₁ sub₂ vis₁ vis₂ hch _ (hUall _ (by decide) hU) (e₁, s₁) (e₂, s₂) ⟨he, hs⟩
+    | exact deviateFold_rel hC r1 r2 root₁ root₂ n sub₁ sub₂ vis₁ vis₂ hch _ (hUall _ (by decide) hU) (e₁, s₁) (e₂, s₂) ⟨he, hs⟩
     | skip
   case h_18 =>
     split
     · exact ⟨he, hs⟩
     · rename_i i hi
-      obtain ⟨q1, q2⟩ := hch i (mem_one_subs hi) s₁ s₂ hs
+      obtain ⟨q1, q2⟩ := hch i (hU i (Or.inr (Or.inl ⟨Or.inl rfl, hi⟩))) s₁ s₂ hs
       refine ⟨?_, q2⟩
       have := hC.setInp _ _ _ _ (hin rfl).1 (hin rfl).2 he
         (hC.withD _ _ (fun d => { d with name := "input", kind := .input }) ⟨fun _ => rfl, fun _ _ => rfl⟩ q1)
@@ -512,7 +559,7 @@ theorem step_rel
     split
     · exact ⟨he, hs⟩
     · rename_i o ho
-      obtain ⟨q1, q2⟩ := hch o (mem_one_subs ho) s₁ s₂ hs
+      obtain ⟨q1, q2⟩ := hch o (hU o (Or.inr (Or.inl ⟨Or.inr rfl, ho⟩))) s₁ s₂ hs
       refine ⟨?_, q2⟩
       have := hC.setOut _ _ _ _ (hout rfl).1 (hout rfl).2 he
         (hC.withD _ _ (fun d => { d with name := "output", kind := .output }) ⟨fun _ => rfl, fun _ _ => rfl⟩ q1)
@@ -572,8 +619,8 @@ theorem step_rel
     · exact ⟨he, hs⟩
     · rename_i hm
       have hm' : isMod = true := by simpa using hm
-      obtain ⟨a1, a2⟩ := augFold_rel r1 r2 root₁ root₂ n sub₁ sub₂ vis₁ vis₂ hch (n.all "augment")
-        (fun a ha => mem_all_subs ha) s₁ s₂ hs
+      obtain ⟨a1, a2⟩ := augFold_rel r1 r2 root₁ root₂ sub₁ sub₂ vis₁ vis₂ hch (n.all "augment")
+        (fun a ha => hU a (Or.inr (Or.inr ⟨rfl, ha⟩))) s₁ s₂ hs
       exact ⟨he, haug hm' _ _ _ _ a2 a1⟩
 
 
@@ -581,6 +628,7 @@ theorem step_rel
 theorem steps_rel
     (htype : ∀ t, n.one? "type" = some t →
       env₁.tres.resolve env₁.reg root₁ sub₁ t = env₂.tres.resolve env₂.reg root₂ sub₂ t)
+    (hU : ∀ f ∈ fieldOrder n.kw, ∀ c, Called n f c → U c)
     (hinc : "include" ∈ fieldOrder n.kw → n.all "include" = []) (isMod : Bool)
     (haug : isMod = true → ∀ s₁ s₂ as₁ as₂, RS s₁ s₂ → RelL RE as₁ as₂ →
       RS { s₁ with augs := s₁.augs ++ [(root₁.seq, as₁)] } { s₂ with augs := s₂.augs ++ [(root₂.seq, as₂)] })
@@ -590,9 +638,9 @@ theorem steps_rel
   have k0 : (e0 root₁ n).d.kind = (e0 root₂ n).d.kind := by rw [(e0_data root₁ n).2.1, (e0_data root₂ n).2.1]
   have S := step_rel hC env₁ env₂ r1 r2 root₁ root₂ n sub₁ sub₂ vis₁ vis₂ hch htype isMod haug
   by_cases hio : "input" ∈ fieldOrder n.kw ∨ "output" ∈ fieldOrder n.kw
-  · rw [fieldOrder_io _ hio]
+  · rw [fieldOrder_io _ hio] at hU ⊢
     simp only [List.foldl]
-    have t1 := S (e0 root₁ n, s₁) (e0 root₂ n, s₂) "output" (fun h => absurd h (by decide)) ⟨hbase, hs⟩ k0
+    have t1 := S (e0 root₁ n, s₁) (e0 root₂ n, s₂) "output" (hU _ (by simp)) (fun h => absurd h (by decide)) ⟨hbase, hs⟩ k0
       (fun h => absurd h (by decide)) (fun _ => ⟨rfl, rfl⟩)
     have a1 := rootKeep_stepFn env₁ r1 root₁ n sub₁ vis₁ isMod (e0 root₁ n, s₁) "output"
     have b1 := rootKeep_stepFn env₂ r2 root₂ n sub₂ vis₂ isMod (e0 root₂ n, s₂) "output"
@@ -601,25 +649,25 @@ theorem steps_rel
     generalize stepFn env₁ r1 root₁ n sub₁ vis₁ isMod (e0 root₁ n, s₁) "output" = x1 at t1 a1 i1 ⊢
     generalize stepFn env₂ r2 root₂ n sub₂ vis₂ isMod (e0 root₂ n, s₂) "output" = y1 at t1 b1 j1 ⊢
     have k1 : x1.1.d.kind = y1.1.d.kind := by rw [a1.2.1, b1.2.1]; exact k0
-    have t2 := S x1 y1 "input" (fun h => absurd h (by decide)) t1 k1 (fun _ => ⟨i1, j1⟩) (fun h => absurd h (by decide))
+    have t2 := S x1 y1 "input" (hU _ (by simp)) (fun h => absurd h (by decide)) t1 k1 (fun _ => ⟨i1, j1⟩) (fun h => absurd h (by decide))
     have a2 := rootKeep_stepFn env₁ r1 root₁ n sub₁ vis₁ isMod x1 "input"
     have b2 := rootKeep_stepFn env₂ r2 root₂ n sub₂ vis₂ isMod y1 "input"
     generalize stepFn env₁ r1 root₁ n sub₁ vis₁ isMod x1 "input" = x2 at t2 a2 ⊢
     generalize stepFn env₂ r2 root₂ n sub₂ vis₂ isMod y1 "input" = y2 at t2 b2 ⊢
     have k2 : x2.1.d.kind = y2.1.d.kind := by rw [a2.2.1, b2.2.1]; exact k1
-    have t3 := S x2 y2 "grouping" (fun h => absurd h (by decide)) t2 k2 (fun h => absurd h (by decide)) (fun h => absurd h (by decide))
+    have t3 := S x2 y2 "grouping" (hU _ (by simp)) (fun h => absurd h (by decide)) t2 k2 (fun h => absurd h (by decide)) (fun h => absurd h (by decide))
     have a3 := rootKeep_stepFn env₁ r1 root₁ n sub₁ vis₁ isMod x2 "grouping"
     have b3 := rootKeep_stepFn env₂ r2 root₂ n sub₂ vis₂ isMod y2 "grouping"
     generalize stepFn env₁ r1 root₁ n sub₁ vis₁ isMod x2 "grouping" = x3 at t3 a3 ⊢
     generalize stepFn env₂ r2 root₂ n sub₂ vis₂ isMod y2 "grouping" = y3 at t3 b3 ⊢
     have k3 : x3.1.d.kind = y3.1.d.kind := by rw [a3.2.1, b3.2.1]; exact k2
-    exact S x3 y3 "description" (fun h => absurd h (by decide)) t3 k3 (fun h => absurd h (by decide)) (fun h => absurd h (by decide))
+    exact S x3 y3 "description" (hU _ (by simp)) (fun h => absurd h (by decide)) t3 k3 (fun h => absurd h (by decide)) (fun h => absurd h (by decide))
   · have hni : "input" ∉ fieldOrder n.kw := fun h => hio (Or.inl h)
     have hno : "output" ∉ fieldOrder n.kw := fun h => hio (Or.inr h)
     refine (foldl_rel (fun (a₁ a₂ : Entry × TState) => AccRel RE RS a₁ a₂ ∧ a₁.1.d.kind = a₂.1.d.kind) _ _ _ _ _
       ⟨⟨hbase, hs⟩, k0⟩ ?_).1
     rintro a₁ a₂ f hf ⟨ha, hk⟩
-    refine ⟨S a₁ a₂ f (fun h => hinc (h ▸ hf)) ha hk (fun h => absurd (h ▸ hf) hni) (fun h => absurd (h ▸ hf) hno), ?_⟩
+    refine ⟨S a₁ a₂ f (hU f hf) (fun h => hinc (h ▸ hf)) ha hk (fun h => absurd (h ▸ hf) hni) (fun h => absurd (h ▸ hf) hno), ?_⟩
     rw [(rootKeep_stepFn env₁ r1 root₁ n sub₁ vis₁ isMod a₁ f).2.1,
       (rootKeep_stepFn env₂ r2 root₂ n sub₂ vis₂ isMod a₂ f).2.1]
     exact hk
@@ -645,7 +693,6 @@ def core (env : Env) (rec : Rec) (root : Mod) (scope : List Stmt) (n : Stmt) (vi
   else dirBody env rec root scope n vis st isMod
 
 /-- The guards of `toEntryBody`, named. -/
-def isModKw (n : Stmt) : Bool := n.kw == "module" || n.kw == "submodule"
 def tracked (n : Stmt) : Bool := isModKw n || n.kw == "grouping"
 def vis' (root : Mod) (n : Stmt) (vis : List NodeId) : List NodeId := if tracked n then nodeId root n :: vis else vis
 
@@ -679,9 +726,83 @@ include hC
 /-- **Relational traversal, one level.**  Two conversions of the statement `n` (not a (sub)module
 statement with include substatements) give related results when: the initial entries, the leaf
 entries and the error entry are related; type resolution answers alike; the recursive calls on
-the substatements give related results from related states; for a `uses`, the lookups answer
-alike and the recursive calls on the answers give related results; and the state relation survives
-the recording of the result in the caches. -/
+the substatements that the field steps convert give related results from related states; for a
+`uses`, the lookups answer alike and the recursive calls on the answers give related results.  The
+relation `Q` between the results is a parameter: it has to hold of related entries and states, also
+after the entry has been recorded in the grouping cache resp. the module cache. -/
+theorem core_relQ (Q : Entry × TState → Entry × TState → Prop)
+    (s₁ s₂ : TState) (hs : RS s₁ s₂) (lk₁ lk₂ : Option GroupingRef) (isMod : Bool)
+    (hbase : RE (e0 root₁ n) (e0 root₂ n))
+    (hleaf : ∀ syn, RE (leafEntry env₁ root₁ scope₁ n syn) (leafEntry env₂ root₂ scope₂ n syn))
+    (herr : RE (errorEntry root₁ n "unknown-group") (errorEntry root₂ n "unknown-group"))
+    (htype : ∀ t, n.one? "type" = some t →
+      env₁.tres.resolve env₁.reg root₁ (n :: scope₁) t = env₂.tres.resolve env₂.reg root₂ (n :: scope₂) t)
+    (hinc : "include" ∈ fieldOrder n.kw → n.all "include" = [])
+    (hch : ∀ c, (∃ f ∈ fieldOrder n.kw, Called n f c) → ∀ t₁ t₂, RS t₁ t₂ →
+      AccRel RE RS (r1 root₁ (n :: scope₁) c vis₁ t₁) (r2 root₂ (n :: scope₂) c vis₂ t₂))
+    (huses : n.kw = "uses" →
+      match lk₁, lk₂ with
+      | none, none => True
+      | some (g₁, gr₁, gs₁), some (g₂, gr₂, gs₂) =>
+        ∀ t₁ t₂, RS t₁ t₂ → AccRel RE RS (r1 gr₁ gs₁ g₁ vis₁ t₁) (r2 gr₂ gs₂ g₂ vis₂ t₂)
+      | _, _ => False)
+    (haug : isMod = true → ∀ t₁ t₂ as₁ as₂, RS t₁ t₂ → RelL RE as₁ as₂ →
+      RS { t₁ with augs := t₁.augs ++ [(root₁.seq, as₁)] } { t₂ with augs := t₂.augs ++ [(root₂.seq, as₂)] })
+    (hplain : ∀ a t₁ b t₂, RE a b → RS t₁ t₂ → Q (a, t₁) (b, t₂))
+    (hcache : isMod = true → ∀ t₁ t₂ a b, RS t₁ t₂ → RE a b →
+      Q (a, { t₁ with cache := t₁.cache ++ [(root₁.seq, a)] }) (b, { t₂ with cache := t₂.cache ++ [(root₂.seq, b)] }))
+    (hgc : n.kw = "grouping" → ∀ t₁ t₂ a b, RS t₁ t₂ → RE a b →
+      Q (a, { t₁ with gcache := t₁.gcache ++ [(nodeId root₁ n, a)] })
+        (b, { t₂ with gcache := t₂.gcache ++ [(nodeId root₂ n, b)] })) :
+    Q (core env₁ r1 root₁ scope₁ n vis₁ s₁ lk₁ isMod) (core env₂ r2 root₂ scope₂ n vis₂ s₂ lk₂ isMod) := by
+  unfold core
+  split
+  · exact hplain _ _ _ _ (hleaf false) hs
+  · split
+    · refine hplain _ _ _ _ ?_ hs
+      rw [leafList_eq, leafList_eq]
+      exact hC.addErrs _ _ _ (hC.withD _ _ _ ⟨fun _ => rfl, fun _ _ => rfl⟩ (hleaf true))
+    · split
+      · rename_i hu
+        have hu' : n.kw = "uses" := by simpa using hu
+        have := huses hu'
+        cases lk₁ with
+        | none =>
+          cases lk₂ with
+          | none => exact hplain _ _ _ _ herr hs
+          | some r => obtain ⟨g, gr, gs⟩ := r; exact absurd this id
+        | some r =>
+          obtain ⟨g₁, gr₁, gs₁⟩ := r
+          cases lk₂ with
+          | none => exact absurd this id
+          | some r' =>
+            obtain ⟨g₂, gr₂, gs₂⟩ := r'
+            have h2 := this s₁ s₂ hs
+            exact hplain _ _ _ _ h2.1 h2.2
+      · have hst := steps_rel hC env₁ env₂ r1 r2 root₁ root₂ n (n :: scope₁) (n :: scope₂) vis₁ vis₂ hch htype
+          (fun f hf c hc => ⟨f, hf, hc⟩) hinc
+          isMod haug hbase s₁ s₂ hs
+        unfold dirBody
+        dsimp only
+        generalize (fieldOrder n.kw).foldl (stepFn env₁ r1 root₁ n (n :: scope₁) vis₁ isMod) (e0 root₁ n, s₁) = x at hst ⊢
+        generalize (fieldOrder n.kw).foldl (stepFn env₂ r2 root₂ n (n :: scope₂) vis₂ isMod) (e0 root₂ n, s₂) = y at hst ⊢
+        obtain ⟨x1, x2⟩ := x
+        obtain ⟨y1, y2⟩ := y
+        obtain ⟨he, hs'⟩ := hst
+        dsimp only at he hs' ⊢
+        cases isMod with
+        | true =>
+          simp only [if_true]
+          exact hcache rfl _ _ _ _ hs' he
+        | false =>
+          simp only [Bool.false_eq_true, if_false]
+          split
+          · rename_i hg
+            have hg' : n.kw = "grouping" := by simpa using hg
+            exact hgc hg' _ _ _ _ hs' he
+          · exact hplain _ _ _ _ he hs'
+
+/-- The same with the relation "related entries, related states" between the results. -/
 theorem core_rel (s₁ s₂ : TState) (hs : RS s₁ s₂) (lk₁ lk₂ : Option GroupingRef) (isMod : Bool)
     (hbase : RE (e0 root₁ n) (e0 root₂ n))
     (hleaf : ∀ syn, RE (leafEntry env₁ root₁ scope₁ n syn) (leafEntry env₂ root₂ scope₂ n syn))
@@ -689,7 +810,7 @@ theorem core_rel (s₁ s₂ : TState) (hs : RS s₁ s₂) (lk₁ lk₂ : Option 
     (htype : ∀ t, n.one? "type" = some t →
       env₁.tres.resolve env₁.reg root₁ (n :: scope₁) t = env₂.tres.resolve env₂.reg root₂ (n :: scope₂) t)
     (hinc : "include" ∈ fieldOrder n.kw → n.all "include" = [])
-    (hch : ∀ c ∈ n.subs, ∀ t₁ t₂, RS t₁ t₂ →
+    (hch : ∀ c, (∃ f ∈ fieldOrder n.kw, Called n f c) → ∀ t₁ t₂, RS t₁ t₂ →
       AccRel RE RS (r1 root₁ (n :: scope₁) c vis₁ t₁) (r2 root₂ (n :: scope₂) c vis₂ t₂))
     (huses : n.kw = "uses" →
       match lk₁, lk₂ with
@@ -703,52 +824,11 @@ theorem core_rel (s₁ s₂ : TState) (hs : RS s₁ s₂) (lk₁ lk₂ : Option 
       RS { t₁ with cache := t₁.cache ++ [(root₁.seq, a)] } { t₂ with cache := t₂.cache ++ [(root₂.seq, b)] })
     (hgc : n.kw = "grouping" → ∀ t₁ t₂ a b, RS t₁ t₂ → RE a b →
       RS { t₁ with gcache := t₁.gcache ++ [(nodeId root₁ n, a)] } { t₂ with gcache := t₂.gcache ++ [(nodeId root₂ n, b)] }) :
-    AccRel RE RS (core env₁ r1 root₁ scope₁ n vis₁ s₁ lk₁ isMod) (core env₂ r2 root₂ scope₂ n vis₂ s₂ lk₂ isMod) := by
-  unfold core
-  split
-  · exact ⟨hleaf false, hs⟩
-  · split
-    · refine ⟨?_, hs⟩
-      dsimp only
-      rw [leafList_eq, leafList_eq]
-      exact hC.addErrs _ _ _ (hC.withD _ _ _ ⟨fun _ => rfl, fun _ _ => rfl⟩ (hleaf true))
-    · split
-      · rename_i hu
-        have hu' : n.kw = "uses" := by simpa using hu
-        have := huses hu'
-        cases lk₁ with
-        | none =>
-          cases lk₂ with
-          | none => exact ⟨herr, hs⟩
-          | some r => obtain ⟨g, gr, gs⟩ := r; exact absurd this id
-        | some r =>
-          obtain ⟨g₁, gr₁, gs₁⟩ := r
-          cases lk₂ with
-          | none => exact absurd this id
-          | some r' =>
-            obtain ⟨g₂, gr₂, gs₂⟩ := r'
-            exact this s₁ s₂ hs
-      · have hst := steps_rel hC env₁ env₂ r1 r2 root₁ root₂ n (n :: scope₁) (n :: scope₂) vis₁ vis₂ hch htype hinc
-          isMod haug hbase s₁ s₂ hs
-        unfold dirBody
-        dsimp only
-        generalize (fieldOrder n.kw).foldl (stepFn env₁ r1 root₁ n (n :: scope₁) vis₁ isMod) (e0 root₁ n, s₁) = x at hst ⊢
-        generalize (fieldOrder n.kw).foldl (stepFn env₂ r2 root₂ n (n :: scope₂) vis₂ isMod) (e0 root₂ n, s₂) = y at hst ⊢
-        obtain ⟨x1, x2⟩ := x
-        obtain ⟨y1, y2⟩ := y
-        obtain ⟨he, hs'⟩ := hst
-        dsimp only at he hs' ⊢
-        cases isMod with
-        | true =>
-          simp only [if_true]
-          exact ⟨he, hcache rfl _ _ _ _ hs' he⟩
-        | false =>
-          simp only [Bool.false_eq_true, if_false]
-          split
-          · rename_i hg
-            have hg' : n.kw = "grouping" := by simpa using hg
-            exact ⟨he, hgc hg' _ _ _ _ hs' he⟩
-          · exact ⟨he, hs'⟩
+    AccRel RE RS (core env₁ r1 root₁ scope₁ n vis₁ s₁ lk₁ isMod) (core env₂ r2 root₂ scope₂ n vis₂ s₂ lk₂ isMod) :=
+  core_relQ hC env₁ env₂ r1 r2 root₁ root₂ n scope₁ scope₂ vis₁ vis₂ (AccRel RE RS) s₁ s₂ hs lk₁ lk₂ isMod hbase hleaf herr
+    htype hinc hch huses haug (fun _ _ _ _ h1 h2 => ⟨h1, h2⟩)
+    (fun hm t₁ t₂ a b h1 h2 => ⟨h2, hcache hm t₁ t₂ a b h1 h2⟩)
+    (fun hg t₁ t₂ a b h1 h2 => ⟨h2, hgc hg t₁ t₂ a b h1 h2⟩)
 
 end Core
 
